@@ -89,21 +89,31 @@ func (c *Crew) NewCaptainSpec() *core.Spec {
 			"do": {
 				Action: &core.FuncAction{
 					F: func(ctx context.Context, bs match.Bindings, props core.StepProps) (*core.Execution, error) {
+						// Whatever happens to this op, the
+						// captain returns to "start" without
+						// "?op": if it stayed bound, the pattern
+						// "?op" would from then on match only a
+						// repetition of this message, and every
+						// other operation would be ignored.
+						failed := func(err string) *core.Execution {
+							return core.NewExecution(match.NewBindings().Extend("error", err))
+						}
+
 						x, have := bs["?op"]
 						if !have {
-							return core.NewExecution(bs.Extend("error", "no op")), nil
+							return failed("no op"), nil
 						}
 						op, err := AsCrewOp(x)
 						if err != nil {
-							return core.NewExecution(bs.Extend("error", "bad crew op: "+err.Error())), nil
+							return failed("bad crew op: " + err.Error()), nil
 						}
 						if op == nil {
-							return core.NewExecution(bs), nil
+							return core.NewExecution(match.NewBindings()), nil
 						}
 
 						err = c.DoOp(ctx, op)
 						if err != nil {
-							return core.NewExecution(bs.Extend("error", "crew op error: "+err.Error())), nil
+							return failed("crew op error: " + err.Error()), nil
 						}
 
 						return core.NewExecution(match.NewBindings()), nil
